@@ -255,10 +255,14 @@ where
                     // 5.
                     let v = algo.beta * (u1 / (F::one() - u1)).ln();
                     w = self.a * v.exp();
-                    if !(algo.alpha * ((algo.alpha / (self.b + w)).ln() + v)
-                        - F::from(4.).unwrap().ln()
-                        < z.ln())
-                    {
+                    // For large `v`, `w` overflows to infinity; use the limit of
+                    // `ln(alpha / (b + w)) + v`, which is `ln(alpha / a)`.
+                    let log_ratio = if w == F::infinity() {
+                        (algo.alpha / self.a).ln()
+                    } else {
+                        (algo.alpha / (self.b + w)).ln() + v
+                    };
+                    if !(algo.alpha * log_ratio - F::from(4.).unwrap().ln() < z.ln()) {
                         #[cfg(rand_distr_verif)]
                         crate::verif_hooks::probe(22);
                         break;
